@@ -18,10 +18,20 @@ The model copies the code, not the intention:
     the images of the block reference's own axes (OCS axes rotated by `rotation`); the pre-fix computation on the
     unrotated OCS axes is kept as `transformInsPreFix` for the regression fact `regression_prefix_transform_unlawful`
     in Props/C18.lean only;
-  * vector norms: the model uses `|x| + |y|`, which is the Euclidean norm exactly for axis-aligned vectors;
-    the model is therefore valid for rotations by multiples of 90° only (`Ins.dir` one of (±1,0), (0,±1));
-    the orthogonality test of `InsertCoordinateSystem.transform` (`InsertTransformationError` fall-back) is
-    unreachable for such `m` (rows of a `matrix44()` are orthogonal) and is not modelled;
+  * a rotation is given by (cos, sin) = `Ins.dir`, any rational point of the unit circle (session 3; before: quarter
+    turns only).  Vector norms are exact: `norm v` is the Euclidean norm when it is rational (`sqrtQ`), otherwise the
+    model answers `Err.irrational` (outside the number field of the model; never produced by the generators).
+    The orthogonality test of `InsertCoordinateSystem.transform` is modelled exactly (`ux·uy = 0`; the code tests
+    `|ux·uy| > 1e-9` on the normalised vectors): when it fails the code takes the explode fall-back of
+    `virtual_block_reference_entities` (finding F20): modelled by `transformOne` / `explode` (the content of the nested
+    reference replaces it, transformed by the same matrix; recursively);
+  * MINSERT: `Insert.mcount`, `Insert.multi_insert` (grid of virtual copies, spacing not scaled, rotated by the
+    rotation of the reference, duplicates for a zero spacing removed, ATTRIBs translated in the WCS: fix 2b2432f57) and the spacing update of `Insert.transform`
+    (fix 1240d5ce0);
+  * `BackendProperties.handle`: `EProps.handle` is `dxf.handle` (0 = virtual entity without handle); `draw_entity` sets the
+    current handle for non-virtual entities only, `draw_insert` resets it after the attached ATTRIBs (fix 3c8d4c469);
+  * CTB: `Ctx.ctbLw` is the table `aci ↦ plot_styles.get_lineweight(aci)` for entries whose lineweight is not
+    OBJECT_LINEWEIGHT; `resolve_lineweight` looks at the RAW `dxf.color` of the entity;
   * the layer table lookup uses `layer_key` (= `str.lower`), the comparison with layer "0" does not;
     an undefined layer gives `DEFAULT_LAYER_PROPERTIES` (white, not the layout foreground colour);
   * `LayerProperties.pen` is the raw `layer.dxf.color`, negative for a layer that is off;
@@ -64,10 +74,17 @@ def comp (f g : Aff) : Aff :=
 end Aff
 
 def rabs (a : Rat) : Rat := if 0 ≤ a then a else -a
-/-- `Vec3.magnitude` for AXIS-ALIGNED vectors (one component zero) -/
-def mag (v : P2) : Rat := rabs v.x + rabs v.y
-/-- `Vec3.normalize` for axis-aligned vectors -/
-def unit (v : P2) : P2 := ⟨v.x / mag v, v.y / mag v⟩
+/-- `|x| + |y|`: the norm of the session-2 model (Euclidean for axis-aligned vectors only); kept for `transformInsPreFix` -/
+def mag1 (v : P2) : Rat := rabs v.x + rabs v.y
+def unit1 (v : P2) : P2 := ⟨v.x / mag1 v, v.y / mag1 v⟩
+
+/-- exact rational square root: `some r` with `0 ≤ r`, `r * r = q` if `q` is the square of a rational, else `none` -/
+def sqrtQ (q : Rat) : Option Rat :=
+  let r : Rat := mkRat (Nat.sqrt q.num.toNat : Nat) (Nat.sqrt q.den)
+  if r * r = q then some r else none
+/-- `Vec3.magnitude` (exact; `none` when irrational) -/
+def norm (v : P2) : Option Rat := sqrtQ (v.x * v.x + v.y * v.y)
+def dot (u v : P2) : Rat := u.x * v.x + u.y * v.y
 
 /-! ## colours, properties -/
 
@@ -86,6 +103,8 @@ structure EProps where
   lineweight : Int
   invisible : Bool
   transparency : Option Nat
+  /-- `dxf.handle` as a number, 0 = `None` (virtual entity) -/
+  handle : Nat
 deriving DecidableEq, Repr, Inhabited
 
 /-- LAYER table entry as stored: `dxf.color` is negative for "off", `flags` bit 1 = frozen, bit 4 = locked;
@@ -128,6 +147,8 @@ structure Ctx where
   layers : List (String × LayerProps)
   fg : Nat
   aci : List Nat
+  /-- `aci ↦ some (plot_styles.get_lineweight(aci))` where the CTB entry overrides the object lineweight -/
+  ctbLw : List (Option Rat) := []
 deriving Repr, Inhabited
 
 def BYLAYER : Int := 256
@@ -247,9 +268,16 @@ def resolveLinetype (cur : Option RProps) (e : EProps) (lp : LayerProps) : Strin
     | none => "STANDARD"
   else name
 
-/-- `resolve_lineweight` (default plot style table: no CTB override) -/
-def resolveLineweight (cur : Option RProps) (e : EProps) (lp : LayerProps) : Rat :=
+/-- `plot_styles[aci].lineweight != OBJECT_LINEWEIGHT` ? `plot_styles.get_lineweight(aci)` for the RAW `dxf.color` -/
+def ctbLineweight (ctx : Ctx) (aci : Int) : Option Rat :=
+  if 0 < aci ∧ aci < 256 then (ctx.ctbLw.getD aci.toNat none) else none
+
+/-- `resolve_lineweight` -/
+def resolveLineweight (ctx : Ctx) (cur : Option RProps) (e : EProps) (lp : LayerProps) : Rat :=
   let lw : Rat :=
+    match ctbLineweight ctx e.color with
+    | some w => w
+    | none =>
     if e.lineweight = LINEWEIGHT_BYLAYER then lp.lineweight
     else if e.lineweight = LINEWEIGHT_BYBLOCK then
       match cur with
@@ -276,8 +304,50 @@ def resolveAll (ctx : Ctx) (cur : Option RProps) (isInsert attribInvisible : Boo
     color := resolveColor ctx cur e lp
     pen := resolvePen cur e lp
     linetype := resolveLinetype cur e lp
-    lineweight := resolveLineweight cur e lp
+    lineweight := resolveLineweight ctx cur e lp
     visible := resolveVisible ctx isInsert attribInvisible key e }
+
+/-- per-viewport layer attribute overrides (`Layer.get_vp_overrides()`, values for one VIEWPORT handle): ACI, true colour,
+    raw transparency value (`float2transparency`), linetype, lineweight -/
+structure VpOverride where
+  aci : Int
+  rgb : Option Nat
+  transparency : Nat
+  linetype : String
+  lineweight : Int
+deriving DecidableEq, Repr, Inhabited
+
+/-- `RenderContext._apply_layer_overrides` on a copy of the layer: `layer.color = aci` keeps the sign of `dxf.color` (the
+    on/off state), the true colour is replaced only when the override has one (an override cannot remove it), the
+    transparency XDATA is always written, linetype and lineweight are replaced; flags and plot flag are untouched -/
+def applyOverride (l : RawLayer) (o : VpOverride) : RawLayer :=
+  { l with
+    color := if 0 ≤ l.color then (o.aci.natAbs : Int) else -(o.aci.natAbs : Int)
+    trueColor := match o.rgb with | some v => some v | none => l.trueColor
+    transparency := some o.transparency
+    linetype := o.linetype
+    lineweight := o.lineweight }
+
+/-- `RenderContext._setup_vp_layers`: the layer table of the document with the per-viewport overrides applied and the
+    layers frozen in the VIEWPORT switched off (`vp.frozen_layers`, compared by `layer_key`) -/
+def mkVpCtxOv (fg : Nat) (aci : List Nat) (exportMode : Bool) (ls : List (RawLayer × Option VpOverride))
+    (frozen : List String) : Ctx :=
+  let fk := frozen.map layerKey
+  { layers := ls.map (fun lo =>
+      let l := match lo.2 with | some o => applyOverride lo.1 o | none => lo.1
+      let p := resolveLayerProps fg aci exportMode l
+      let key := layerKey p.layer
+      (key, if fk.contains key then { p with visible := false } else p))
+    fg := fg, aci := aci }
+
+/-- the same without property overrides -/
+def mkVpCtx (fg : Nat) (aci : List Nat) (exportMode : Bool) (ls : List RawLayer) (frozen : List String) : Ctx :=
+  mkVpCtxOv fg aci exportMode (ls.map (fun l => (l, none))) frozen
+
+/-- `set_layer_properties_override(func)`: `func` edits the resolved `LayerProperties` in place after `_setup_layers`
+    (the dict keys are not changed) -/
+def Ctx.overrideLayers (ctx : Ctx) (f : LayerProps → LayerProps) : Ctx :=
+  { ctx with layers := ctx.layers.map (fun p => (p.1, f p.2)) }
 
 /-! ## entities, documents -/
 
@@ -291,7 +361,8 @@ structure Attrib where
   pos : P2
 deriving DecidableEq, Repr, Inhabited
 
-/-- INSERT: `pos` is `dxf.insert` (OCS), `dir` = (cos, sin) of `dxf.rotation`, `flip`: extrusion (0,0,-1) -/
+/-- INSERT: `pos` is `dxf.insert` (OCS), `dir` = (cos, sin) of `dxf.rotation`, `flip`: extrusion (0,0,-1);
+    `rows cols rowSp colSp` = `row_count column_count row_spacing column_spacing` (MINSERT) -/
 structure Ins where
   props : EProps
   name : String
@@ -301,6 +372,10 @@ structure Ins where
   dir : P2
   flip : Bool
   attribs : List Attrib
+  rows : Nat
+  cols : Nat
+  rowSp : Rat
+  colSp : Rat
 deriving DecidableEq, Repr, Inhabited
 
 inductive Ent where
@@ -334,11 +409,15 @@ structure Prim where
   layer : String
   linetype : String
   lineweight : Rat
+  handle : Nat
   pts : List P2
 deriving DecidableEq, Repr, Inhabited
 
-def mkPrim (k : PKind) (rp : RProps) (pts : List P2) : Prim :=
-  ⟨k, rp.color, rp.pen, rp.layer, rp.linetype, rp.lineweight, pts⟩
+def mkPrim (k : PKind) (rp : RProps) (h : Nat) (pts : List P2) : Prim :=
+  ⟨k, rp.color, rp.pen, rp.layer, rp.linetype, rp.lineweight, h, pts⟩
+
+/-- `draw_entity`: `if not entity.is_virtual: set_current_entity_handle(entity.dxf.handle)` -/
+def hOf (p : EProps) (h : Nat) : Nat := if p.handle = 0 then h else p.handle
 
 /-- OCS x-axis sign: `OCS((0,0,-1)).ux = (-1,0,0)`, `uy = (0,1,0)` -/
 def exSign (flip : Bool) : Rat := if flip then -1 else 1
@@ -363,90 +442,203 @@ def xfOf (i : Ins) (base : P2) : Aff :=
 
 def transformAttrib (m : Aff) (a : Attrib) : Attrib := { a with pos := m.apply a.pos }
 
-/-- `Insert.transform(m)` = `InsertCoordinateSystem.transform` + `attrib.transform(m)` for every attached ATTRIB.
-    `x_axis = ocs.to_wcs(Vec3.from_angle(angle))`, `y_axis = ocs.to_wcs(Vec3.from_angle(angle + pi/2))` -/
-def transformIns (m : Aff) (i : Ins) : Ins :=
+inductive Err where
+  | recursion   -- RecursionError (no cycle guard in the front end)
+  | structure   -- DXFStructureError: required block definition does not exist
+  | index       -- IndexError: pop from empty list
+  | fallback    -- `InsertTransformationError` of `Insert.transform`: caught by `virtual_block_reference_entities`, which
+                -- explodes the nested INSERT in place (`transformOne`; finding F20); never the result of a draw
+  | irrational  -- outside the model: a vector norm is not rational
+  | degenerate  -- outside the model: a transformed axis has length 0 (zero scale factor)
+deriving DecidableEq, Repr, Inhabited
+
+/-- `Insert.transform(m)` = `InsertCoordinateSystem.transform` + MINSERT spacing + `attrib.transform(m)` for every
+    attached ATTRIB.  `x_axis = ocs.to_wcs(Vec3.from_angle(angle))`, `y_axis = ocs.to_wcs(Vec3.from_angle(angle + pi/2))`.
+    The orthogonality test (exact here, `1e-9` on the normalised vectors in the code) comes before the lengths are needed
+    as rational numbers, so that the fall-back is taken for every sheared reference -/
+def transformIns (m : Aff) (i : Ins) : Except Err Ins :=
   let ex := exSign i.flip
   let ux := m.lin (ocsFlip i.flip i.dir)
   let uy := m.lin (ocsFlip i.flip ⟨-i.dir.y, i.dir.x⟩)
-  let xs := mag ux * i.sx
-  let ys := mag uy * i.sy
-  let uxn := unit ux
-  let uyn := unit uy
-  -- expected_uy = uz.cross(ux), uz = (0, 0, ez)
-  let expected : P2 := ⟨-(ex * uxn.y), ex * uxn.x⟩
-  let ys := if expected = uyn then ys else -ys
-  { i with
-    pos := ocsFlip i.flip (m.apply (ocsFlip i.flip i.pos))
-    sx := xs
-    sy := ys
-    dir := unit (ocsFlip i.flip (m.lin (ocsFlip i.flip i.dir)))
-    attribs := i.attribs.map (transformAttrib m) }
+  if dot ux ux = 0 ∨ dot uy uy = 0 then .error .degenerate
+  else if dot ux uy ≠ 0 then .error .fallback
+  else
+    match norm ux, norm uy with
+    | some nx, some ny =>
+      let xs := nx * i.sx
+      let ys := ny * i.sy
+      let uxn : P2 := ⟨ux.x / nx, ux.y / nx⟩
+      let uyn : P2 := ⟨uy.x / ny, uy.y / ny⟩
+      -- expected_uy = uz.cross(ux), uz = (0, 0, ez)
+      let expected : P2 := ⟨-(ex * uxn.y), ex * uxn.x⟩
+      let ys := if expected = uyn then ys else -ys
+      .ok { i with
+        pos := ocsFlip i.flip (m.apply (ocsFlip i.flip i.pos))
+        sx := xs
+        sy := ys
+        dir := ocsFlip i.flip uxn
+        colSp := if i.sx ≠ 0 then i.colSp * (xs / i.sx) else i.colSp
+        rowSp := if i.sy ≠ 0 then i.rowSp * (ys / i.sy) else i.rowSp
+        attribs := i.attribs.map (transformAttrib m) }
+    | _, _ => .error .irrational
 
-/-- the computation BEFORE fix 603b8b3fe (scale factors from the images of the unrotated OCS axes); not used by the
-    model, only by the regression fact in Props/C18.lean -/
+/-- the computation BEFORE fix 603b8b3fe (scale factors from the images of the unrotated OCS axes) in the session-2
+    model (norm `|x|+|y|`, quarter turns); not used by the model, only by the regression fact in Props/C18.lean -/
 def transformInsPreFix (m : Aff) (i : Ins) : Ins :=
   let ex := exSign i.flip
   let ux := m.lin ⟨ex, 0⟩
   let uy := m.lin ⟨0, 1⟩
-  let xs := mag ux * i.sx
-  let ys := mag uy * i.sy
-  let uxn := unit ux
-  let uyn := unit uy
+  let xs := mag1 ux * i.sx
+  let ys := mag1 uy * i.sy
+  let uxn := unit1 ux
+  let uyn := unit1 uy
   let expected : P2 := ⟨-(ex * uxn.y), ex * uxn.x⟩
   let ys := if expected = uyn then ys else -ys
   { i with
     pos := ocsFlip i.flip (m.apply (ocsFlip i.flip i.pos))
     sx := xs
     sy := ys
-    dir := unit (ocsFlip i.flip (m.lin (ocsFlip i.flip i.dir)))
+    dir := unit1 (ocsFlip i.flip (m.lin (ocsFlip i.flip i.dir)))
     attribs := i.attribs.map (transformAttrib m) }
 
+/-- `entity.copy()`: a virtual entity has no handle -/
+def clearHandle (p : EProps) : EProps := { p with handle := 0 }
+def copyAttrib (a : Attrib) : Attrib := { a with props := clearHandle a.props }
+def copyIns (i : Ins) : Ins := { i with props := clearHandle i.props, attribs := i.attribs.map copyAttrib }
+def copyEnt : Ent → Ent
+  | .leaf k p pts => .leaf k (clearHandle p) pts
+  | .ins i => .ins (copyIns i)
+
 /-- `entity.transform(m)` of a copied block entity -/
-def transformEnt (m : Aff) : Ent → Ent
-  | .leaf k p pts => .leaf k p (pts.map m.apply)
-  | .ins i => .ins (transformIns m i)
+def transformEnt (m : Aff) : Ent → Except Err Ent
+  | .leaf k p pts => .ok (.leaf k p (pts.map m.apply))
+  | .ins i =>
+    match transformIns m i with
+    | .ok i' => .ok (.ins i')
+    | .error e => .error e
+
+def mapE {α β : Type} (f : α → Except Err β) : List α → Except Err (List β)
+  | [] => .ok []
+  | a :: as =>
+    match f a with
+    | .error e => .error e
+    | .ok b =>
+      match mapE f as with
+      | .error e => .error e
+      | .ok bs => .ok (b :: bs)
 
 def isAttdef : Ent → Bool
   | .leaf .attdef _ _ => true
   | _ => false
 
-/-- `virtual_block_reference_entities`: copies of the block content (ATTDEF skipped) transformed by `m` -/
-def virtualEntities (m : Aff) (b : Block) : List Ent :=
-  (b.ents.filter (fun e => !isAttdef e)).map (transformEnt m)
+/-- the block content as `disassemble` yields it: copies, ATTDEF skipped -/
+def blockCopies (b : Block) : List Ent := (b.ents.filter (fun e => !isAttdef e)).map copyEnt
+
+/-! ## MINSERT -/
+
+/-- `Insert.mcount` -/
+def mcount (i : Ins) : Nat := (if i.rowSp ≠ 0 then i.rows else 1) * (if i.colSp ≠ 0 then i.cols else 1)
+
+/-- grid offsets in the order of the two `for` loops, `if offset not in done` -/
+def gridOffsets (i : Ins) : List P2 :=
+  ((List.range i.rows).flatMap (fun (r : Nat) => (List.range i.cols).map (fun (c : Nat) => (⟨(c : Rat) * i.colSp, (r : Rat) * i.rowSp⟩ : P2)))).eraseDups
+
+/-- `offset.rotate_deg(rotation)` -/
+def rotateBy (d : P2) (p : P2) : P2 := ⟨p.x * d.x - p.y * d.y, p.x * d.y + p.y * d.x⟩
+
+/-- one grid element of `Insert.multi_insert`: a copy moved by the rotated (unscaled) offset, grid attributes discarded;
+    the attached ATTRIBs are translated by the same offset taken to the WCS (`attrib.translate(ocs.to_wcs(offset))`,
+    fix 2b2432f57; before: the raw OCS offset was added to `attrib.dxf.insert`) -/
+def gridCell (i : Ins) (off : P2) : Ins :=
+  let o := rotateBy i.dir off
+  let w := ocsFlip i.flip o
+  let c := copyIns i
+  { c with
+    pos := ⟨i.pos.x + o.x, i.pos.y + o.y⟩
+    rows := 1, cols := 1, rowSp := 0, colSp := 0
+    attribs := c.attribs.map (fun a => { a with pos := ⟨a.pos.x + w.x, a.pos.y + w.y⟩ }) }
+
+/-- `Insert.multi_insert` -/
+def multiInsert (i : Ins) : List Ins := (gridOffsets i).map (gridCell i)
+
+/-- `draw_composite_entity`: `multi_insert()` if `mcount > 1` else the entity itself -/
+def cells (i : Ins) : List Ins := if 1 < mcount i then multiInsert i else [i]
+
+/-! ## `virtual_block_reference_entities` with its explode fall-back -/
+
+def flatMapE {α β : Type} (f : α → Except Err (List β)) : List α → Except Err (List β)
+  | [] => .ok []
+  | a :: as =>
+    match f a with
+    | .error e => .error e
+    | .ok bs =>
+      match flatMapE f as with
+      | .error e => .error e
+      | .ok cs => .ok (bs ++ cs)
+
+/-- `virtual_block_reference_entities(c)` for a nested reference `c`, `tr` = the function one nesting level deeper:
+    `m = c.matrix44()`, `DXFStructureError` without block definition, `transform(disassemble(block))` -/
+def vbreWith (doc : Doc) (tr : Aff → List Ent → Except Err (List Ent)) (c : Ins) : Except Err (List Ent) :=
+  match doc.find c.name with
+  | none => .error .structure
+  | some blk => tr (xfOf c blk.base) (blockCopies blk)
+
+/-- the loop body of `transform(entities)` for the matrix `m`: `entity.transform(m)`; for an INSERT that raises
+    `InsertTransformationError` the FALL-BACK: for every grid element of the untransformed reference the entities of
+    `virtual_block_reference_entities(element)` are passed through this same `transform` (matrix `m`) and yielded in place of
+    the reference.  The reference itself (its properties, its ATTRIBs, its invisible flag) is gone: finding F20.
+    `sub` = `explode` one level deeper (`none`: recursion limit) -/
+def transformOne (doc : Doc) (sub : Option (Aff → List Ent → Except Err (List Ent))) (m : Aff) : Ent → Except Err (List Ent)
+  | .leaf k p pts => .ok [.leaf k p (pts.map m.apply)]
+  | .ins i =>
+    match transformIns m i with
+    | .ok i' => .ok [.ins i']
+    | .error .fallback =>
+      match sub with
+      | none => .error .recursion
+      | some tr =>
+        flatMapE (fun c =>
+          match vbreWith doc tr c with
+          | .error e => .error e
+          | .ok inner => tr m inner) (cells i)
+    | .error e => .error e
+
+/-- `transform(entities)` with `fuel` levels of fall-back left -/
+def explode (doc : Doc) : Nat → Aff → List Ent → Except Err (List Ent)
+  | 0 => fun m => flatMapE (transformOne doc none m)
+  | f + 1 => fun m => flatMapE (transformOne doc (some (explode doc f)) m)
+
+/-- `virtual_block_reference_entities`: copies of the block content (ATTDEF skipped) transformed by `m`, nested references
+    that cannot be transformed exploded in place -/
+def virtualEntities (doc : Doc) (fuel : Nat) (m : Aff) (b : Block) : Except Err (List Ent) :=
+  explode doc fuel m (blockCopies b)
 
 /-- the leaf draw methods of the front end -/
-def emitLeaf (k : Kind) (rp : RProps) (pts : List P2) : List Prim :=
+def emitLeaf (k : Kind) (rp : RProps) (h : Nat) (pts : List P2) : List Prim :=
   match k with
-  | .line => [mkPrim .line rp pts]
-  | .point => if layerKey rp.layer = "defpoints" then [] else [mkPrim .point rp pts]
-  | .attdef => [mkPrim .attdef rp pts]
-  | .circle => [mkPrim .curve rp pts]
+  | .line => [mkPrim .line rp h pts]
+  | .point => if layerKey rp.layer = "defpoints" then [] else [mkPrim .point rp h pts]
+  | .attdef => [mkPrim .attdef rp h pts]
+  | .circle => [mkPrim .curve rp h pts]
   | .polyline closed =>
     match pts with
     | [] => []
     | [_] => []
     | p0 :: rest =>
       let all := p0 :: rest
-      if closed ∧ all.getLast? ≠ some p0 then [mkPrim .path rp (all ++ [p0])] else [mkPrim .path rp all]
+      if closed ∧ all.getLast? ≠ some p0 then [mkPrim .path rp h (all ++ [p0])] else [mkPrim .path rp h all]
   | .solid =>
     match pts with
-    | [v0, v1, v2, v3] => if v3 ≠ v2 then [mkPrim .fill rp [v0, v1, v3, v2]] else [mkPrim .fill rp [v0, v1, v2]]
+    | [v0, v1, v2, v3] => if v3 ≠ v2 then [mkPrim .fill rp h [v0, v1, v3, v2]] else [mkPrim .fill rp h [v0, v1, v2]]
     | _ => []
 
-/-- `draw_entities(insert.attribs)` with the block reference state `cur` already pushed -/
-def drawAttribs (ctx : Ctx) (cur : Option RProps) (as : List Attrib) : List Prim :=
+/-- `draw_entities(insert.attribs)` with the block reference state `cur` already pushed; `h` = current entity handle -/
+def drawAttribs (ctx : Ctx) (cur : Option RProps) (h : Nat) (as : List Attrib) : List Prim :=
   as.flatMap (fun a =>
     let ra := resolveAll ctx cur false a.flag a.props
-    if ra.visible then [mkPrim .attrib ra [a.pos]] else [])
+    if ra.visible then [mkPrim .attrib ra (hOf a.props h) [a.pos]] else [])
 
 /-! ## the traversal with the block reference state stack -/
-
-inductive Err where
-  | recursion   -- RecursionError (no cycle guard in the front end)
-  | structure   -- DXFStructureError: required block definition does not exist
-  | index       -- IndexError: pop from empty list
-deriving DecidableEq, Repr, Inhabited
 
 /-- `current_block_reference_properties` and `_saved_states` -/
 structure State where
@@ -463,52 +655,156 @@ def State.pop (st : State) : Except Err State :=
   | [] => .error .index
   | s :: rest => .ok ⟨s, rest⟩
 
-/-- `_draw_entities` → `draw_entity` → `draw_composite_entity`; `fuel` bounds the nesting depth -/
-def drawEnts (doc : Doc) (ctx : Ctx) : Nat → List Ent → State → Except Err (List Prim × State)
-  | _, [], st => .ok ([], st)
-  | fuel, .leaf k p pts :: es, st =>
+abbrev Res := Except Err (List Prim × State)
+
+/-- the `for entity in entities` loop of `_draw_entities`, `one` = loop body -/
+def drawList (one : Ent → State → Res) : List Ent → State → Res
+  | [], st => .ok ([], st)
+  | e :: es, st =>
+    match one e st with
+    | .error x => .error x
+    | .ok (o1, st1) =>
+      match drawList one es st1 with
+      | .error x => .error x
+      | .ok (o2, st2) => .ok (o1 ++ o2, st2)
+
+/-- `draw_insert` for every grid element: attached ATTRIBs, then the virtual entities of the block (drawn by `sub`) -/
+def drawCells (ctx : Ctx) (sub : List Ent → State → Res) (ve : Aff → Except Err (List Ent)) (base : P2) (h : Nat) :
+    List Ins → State → Res
+  | [], st => .ok ([], st)
+  | c :: cs, st =>
+    let o1 := drawAttribs ctx st.current h c.attribs
+    match ve (xfOf c base) with
+    | .error x => .error x
+    | .ok ents =>
+      match sub ents st with
+      | .error x => .error x
+      | .ok (o2, st2) =>
+        match drawCells ctx sub ve base h cs st2 with
+        | .error x => .error x
+        | .ok (o3, st3) => .ok (o1 ++ o2 ++ o3, st3)
+
+/-- loop body of `_draw_entities`: `resolve_all`, visibility test, `draw_entity` → leaf draw method or
+    `draw_composite_entity` (`push_state`, `draw_insert` per grid element, `pop_state`);
+    `sub h'` draws a list of virtual entities one nesting level deeper (`none`: recursion limit reached), `ef` = nesting
+    levels left for the explode fall-back -/
+def drawOne (doc : Doc) (ctx : Ctx) (sub : Option (Nat → List Ent → State → Res)) (ef : Nat) (h : Nat) (e : Ent) (st : State) : Res :=
+  match e with
+  | .leaf k p pts =>
     let rp := resolveAll ctx st.current false false p
-    if rp.visible then
-      match drawEnts doc ctx fuel es st with
-      | .ok (out, st') => .ok (emitLeaf k rp pts ++ out, st')
-      | .error e => .error e
-    else drawEnts doc ctx fuel es st
-  | fuel, .ins i :: es, st =>
+    if rp.visible then .ok (emitLeaf k rp (hOf p h) pts, st) else .ok ([], st)
+  | .ins i =>
     let rp := resolveAll ctx st.current true false i.props
     if rp.visible then
-      match fuel with
-      | 0 => .error .recursion
-      | fuel' + 1 =>
+      match sub with
+      | none => .error .recursion
+      | some rec =>
+        let h' := hOf i.props h
         let st1 := st.push rp
-        let o1 := drawAttribs ctx st1.current i.attribs
         match doc.find i.name with
         | none => .error .structure
         | some blk =>
-          match drawEnts doc ctx fuel' (virtualEntities (xfOf i blk.base) blk) st1 with
-          | .error e => .error e
-          | .ok (o2, st2) =>
+          match drawCells ctx (rec h') (fun m => virtualEntities doc ef m blk) blk.base h' (cells i) st1 with
+          | .error x => .error x
+          | .ok (o, st2) =>
             match st2.pop with
-            | .error e => .error e
-            | .ok st3 =>
-              match drawEnts doc ctx (fuel' + 1) es st3 with
-              | .ok (o3, st4) => .ok (o1 ++ o2 ++ o3, st4)
-              | .error e => .error e
-    else drawEnts doc ctx fuel es st
-termination_by fuel ents => (fuel, ents.length)
-decreasing_by
-  all_goals simp_wf
-  all_goals first
-    | (apply Prod.Lex.right; simp)
-    | (apply Prod.Lex.left; omega)
+            | .error x => .error x
+            | .ok st3 => .ok (o, st3)
+    else .ok ([], st)
+
+/-- `_draw_entities` → `draw_entity` → `draw_composite_entity`; `fuel` bounds the nesting depth, `h` is the current
+    entity handle of the pipeline -/
+def drawEnts (doc : Doc) (ctx : Ctx) : Nat → Nat → List Ent → State → Res
+  | 0, h => drawList (drawOne doc ctx none 0 h)
+  | fuel + 1, h => drawList (drawOne doc ctx (some (drawEnts doc ctx fuel)) fuel h)
 
 /-- `Frontend.draw_layout` with fuel = number of block definitions + 1 (enough for every acyclic document) -/
-def drawLayout (doc : Doc) (ctx : Ctx) (ents : List Ent) : Except Err (List Prim × State) :=
-  drawEnts doc ctx (doc.blocks.length + 1) ents State.init
+def drawLayout (doc : Doc) (ctx : Ctx) (ents : List Ent) : Res :=
+  drawEnts doc ctx (doc.blocks.length + 1) 0 ents State.init
+
+/-- `draw_layout(layout, filter_func=keep)`: the filter is applied to the entities of the layout only
+    (`_draw_entities(..., filter_func)` is not passed on to the nested `draw_entities` calls) -/
+def drawLayoutFiltered (doc : Doc) (ctx : Ctx) (keep : Ent → Bool) (ents : List Ent) : Res :=
+  drawLayout doc ctx (ents.filter keep)
+
+/-- handle of a layout entity -/
+def entHandle : Ent → Nat
+  | .leaf _ p _ => p.handle
+  | .ins i => i.props.handle
+
+/-- `reorder._build.sort_handle`: the sort handle from the ACAD_SORTENTS table if the entity has an entry, else its own handle;
+    sort handle 0 sorts last (`0xFFFFFFFFFFFFFFFF`) -/
+def sortHandle (mapping : List (Nat × Nat)) (e : Ent) : Nat :=
+  let h := match mapping.find? (fun p => p.1 = entHandle e) with
+    | some p => p.2
+    | none => entHandle e
+  if h = 0 then 0xFFFFFFFFFFFFFFFF else h
+
+/-- `draw_layout`: with a redraw order table the entities are drawn in ascending sort handle order, entities with equal sort
+    handles in layout order (`reorder.ascending`: heap of (sort handle, index)); without a table in layout order -/
+def redrawOrder (mapping : List (Nat × Nat)) (ents : List Ent) : List Ent :=
+  if mapping.isEmpty then ents else ents.mergeSort (fun a b => sortHandle mapping a ≤ sortHandle mapping b)
+
+/-- `draw_layout(layout, filter_func=keep)` for a layout with the redraw order table `mapping` -/
+def drawLayoutOrdered (doc : Doc) (ctx : Ctx) (mapping : List (Nat × Nat)) (keep : Ent → Bool) (ents : List Ent) : Res :=
+  drawLayoutFiltered doc ctx keep (redrawOrder mapping ents)
+
+/-- `_draw_viewports`: VIEWPORT entities are taken out of the entity stream, sorted by `status` (stable), those with
+    `status <= 0` removed, the first one removed if its status is 1 (the "active" viewport); the rest is drawn -/
+def selectVps {α : Type} (status : α → Int) (l : List α) : List α :=
+  let vs := (l.mergeSort (fun a b => status a ≤ status b)).filter (fun v => 0 < status v)
+  match vs with
+  | [] => []
+  | v :: rest => if status v = 1 then rest else v :: rest
+
+def viewportsDrawn (status : List Int) : List Int := selectVps id status
+
+/-- a top-view VIEWPORT without twist: `status`, `frozen_layers`, per-viewport layer property overrides (by layer name),
+    `get_scale()` and the translation `center - view_center_point * scale` of `get_transformation_matrix()` -/
+structure Vp where
+  status : Int
+  frozen : List String
+  ovs : List (String × VpOverride)
+  scale : Rat
+  offset : P2
+deriving Repr, Inhabited
+
+/-- `Viewport.get_transformation_matrix()` (modelspace → paperspace) -/
+def Vp.matrix (v : Vp) : Aff := ⟨v.scale, 0, 0, v.scale, v.offset.x, v.offset.y⟩
+
+/-- the clipping portal of the render pipeline maps every primitive by the matrix of the viewport (nothing is clipped
+    away when the viewport shows the whole content) -/
+def mapPrims (m : Aff) (ps : List Prim) : List Prim := ps.map (fun p => { p with pts := p.pts.map m.apply })
+
+/-- `RenderContext.from_viewport(vp)` for the layer table `ls` of the document -/
+def vpCtx (fg : Nat) (aci : List Nat) (exportMode : Bool) (ls : List RawLayer) (v : Vp) : Ctx :=
+  mkVpCtxOv fg aci exportMode (ls.map (fun l => (l, (v.ovs.find? (fun o => o.1 = l.name)).map (·.2)))) v.frozen
+
+/-- `pipeline.draw_viewport` for every selected viewport: the modelspace entities drawn with the viewport's context -/
+def drawVps (doc : Doc) (mk : Vp → Ctx) (msp : List Ent) : List Vp → Except Err (List Prim)
+  | [] => .ok []
+  | v :: vs =>
+    match drawLayout doc (mk v) msp with
+    | .error e => .error e
+    | .ok (o, _) =>
+      match drawVps doc mk msp vs with
+      | .error e => .error e
+      | .ok os => .ok (mapPrims v.matrix o ++ os)
+
+/-- `draw_layout` of a paperspace layout: its own entities in order (VIEWPORT entities deferred), then the viewports -/
+def drawLayoutVp (doc : Doc) (ctx : Ctx) (mk : Vp → Ctx) (ents : List Ent) (vps : List Vp) (msp : List Ent) :
+    Except Err (List Prim × State) :=
+  match drawLayout doc ctx ents with
+  | .error e => .error e
+  | .ok (o, st) =>
+    match drawVps doc mk msp (selectVps (·.status) vps) with
+    | .error e => .error e
+    | .ok os => .ok (o ++ os, st)
 
 /-! ## specification: what the document defines -/
 
 mutual
-/-- the block tree: a reference with the content of the referenced block (in block coordinates) -/
+/-- the block tree: a reference with the content of the referenced block (copies, in block coordinates) -/
 inductive Tree where
   | leaf (k : Kind) (p : EProps) (pts : List P2)
   | node (i : Ins) (base : P2) (children : Forest)
@@ -521,18 +817,24 @@ namespace Spec
 
 def mapAttribs (acc : Aff) (as : List Attrib) : List Attrib := as.map (transformAttrib acc)
 
+/-- every grid element of a (M)INSERT: its ATTRIBs, then the block content (`content m` = primitives of the block
+    content under the matrix `m`) under the matrix of the element -/
+def cellsPrims (ctx : Ctx) (rp : RProps) (acc : Aff) (h : Nat) (base : P2) (content : Aff → List Prim) (cs : List Ins) : List Prim :=
+  cs.flatMap (fun c => drawAttribs ctx (some rp) h (mapAttribs acc c.attribs) ++ content ((xfOf c base).comp acc))
+
 /-- Primitives of a forest by structural recursion: `env` = resolved properties of the enclosing reference
-    (`none` at layout level), `acc` = product of the reference matrices along the path (innermost first). -/
-def flatten (ctx : Ctx) : Option RProps → Aff → Forest → List Prim
-  | _, _, .nil => []
-  | env, acc, .cons (.leaf k p pts) rest =>
+    (`none` at layout level), `acc` = product of the reference matrices along the path (innermost first),
+    `h` = handle of the enclosing top level entity. -/
+def flatten (ctx : Ctx) : Option RProps → Aff → Nat → Forest → List Prim
+  | _, _, _, .nil => []
+  | env, acc, h, .cons (.leaf k p pts) rest =>
     let rp := resolveAll ctx env false false p
-    (if rp.visible then emitLeaf k rp (pts.map acc.apply) else []) ++ flatten ctx env acc rest
-  | env, acc, .cons (.node i base ch) rest =>
+    (if rp.visible then emitLeaf k rp (hOf p h) (pts.map acc.apply) else []) ++ flatten ctx env acc h rest
+  | env, acc, h, .cons (.node i base ch) rest =>
     let rp := resolveAll ctx env true false i.props
     (if rp.visible then
-        drawAttribs ctx (some rp) (mapAttribs acc i.attribs) ++ flatten ctx (some rp) ((xfOf i base).comp acc) ch
-      else []) ++ flatten ctx env acc rest
+        cellsPrims ctx rp acc (hOf i.props h) base (fun m => flatten ctx (some rp) m (hOf i.props h) ch) (cells i)
+      else []) ++ flatten ctx env acc h rest
 
 end Spec
 
@@ -540,12 +842,8 @@ def Forest.append : Forest → Forest → Forest
   | .nil, g => g
   | .cons t f, g => .cons t (Forest.append f g)
 
-/-- `Insert.transform(m)` is lawful for `i`: the transformed INSERT has the matrix `matrix44(i) @ m` -/
-def lawful (m : Aff) (i : Ins) (base : P2) : Bool :=
-  decide (xfOf (transformIns m i) base = (xfOf i base).comp m)
-
-/-- Unfolding of the block graph into the block tree; `none` if a block is missing or the nesting is deeper than
-    `fuel` (cycle). -/
+/-- Unfolding of the block graph into the block tree (of copies); `none` if a block is missing or the nesting is deeper
+    than `fuel` (cycle). -/
 def unfold (doc : Doc) : Nat → List Ent → Option Forest
   | _, [] => some .nil
   | fuel, .leaf k p pts :: es =>
@@ -557,7 +855,7 @@ def unfold (doc : Doc) : Nat → List Ent → Option Forest
     match doc.find i.name with
     | none => none
     | some blk =>
-      match unfold doc fuel' (blk.ents.filter (fun e => !isAttdef e)) with
+      match unfold doc fuel' (blockCopies blk) with
       | none => none
       | some ch =>
         match unfold doc (fuel' + 1) es with
@@ -586,6 +884,35 @@ decreasing_by
     | (apply Prod.Lex.right; simp)
     | (apply Prod.Lex.left; omega)
 
+/-! ## lawfulness of `Insert.transform` -/
+
+/-- `Insert.transform(m)` is lawful for the single reference `i`: it succeeds and the transformed INSERT has the matrix
+    `matrix44(i) @ m` -/
+def lawful (m : Aff) (i : Ins) (base : P2) : Bool :=
+  match transformIns m i with
+  | .ok i' => decide (xfOf i' base = (xfOf i base).comp m)
+  | .error _ => false
+
+/-- grid elements of the transformed (M)INSERT = transformed grid elements (matrix and attached ATTRIBs) -/
+def cellsAgree (m : Aff) (base : P2) : List Ins → List Ins → Bool
+  | [], [] => true
+  | c' :: cs', c :: cs =>
+    decide (xfOf c' base = (xfOf c base).comp m) && decide (c'.attribs = c.attribs.map (transformAttrib m)) &&
+      cellsAgree m base cs' cs
+  | _, _ => false
+
+/-- `Insert.transform(acc)` is lawful for every reference of the block tree under the matrix accumulated on the way to it
+    (in particular no reference takes the explode fall-back) -/
+def Forest.lawful : Aff → Forest → Bool
+  | _, .nil => true
+  | acc, .cons (.leaf _ _ _) rest => Forest.lawful acc rest
+  | acc, .cons (.node i base ch) rest =>
+    (match transformIns acc i with
+      | .ok i' =>
+        decide (i'.props = i.props) && decide (i'.name = i.name) && cellsAgree acc base (cells i') (cells i) &&
+          (cells i).all (fun c => Forest.lawful ((xfOf c base).comp acc) ch)
+      | .error _ => false) && Forest.lawful acc rest
+
 /-! ## predicates used by the property statements -/
 
 /-- no layer table entry hides `name` (the layer is on, thawed and plotted, or undefined) -/
@@ -595,13 +922,30 @@ def LayerShown (ctx : Ctx) (name : String) : Prop :=
 /-- (cos, sin) of a rotation by a multiple of 90° -/
 def AxisUnit (d : P2) : Prop := d = ⟨1, 0⟩ ∨ d = ⟨0, 1⟩ ∨ d = ⟨-1, 0⟩ ∨ d = ⟨0, -1⟩
 
+/-- (cos, sin) of any rotation with rational cosine and sine -/
+def UnitDir (d : P2) : Prop := d.x * d.x + d.y * d.y = 1
+
 /-- linear part of a composition of translations, axis scalings/mirrors and quarter turns -/
 def Monomial (m : Aff) : Prop :=
   (m.b = 0 ∧ m.c = 0 ∧ m.a ≠ 0 ∧ m.d ≠ 0) ∨ (m.a = 0 ∧ m.d = 0 ∧ m.b ≠ 0 ∧ m.c ≠ 0)
 
-/-- a block reference of the modelled class: rotated by a multiple of 90°, non-zero scale factors (mirrors allowed) -/
+/-- linear part = `k` · (rotation or reflection), `k > 0` rational: compositions of translations, rotations by any
+    rational (cos, sin), uniform scalings and mirrors -/
+def Similarity (m : Aff) (k : Rat) : Prop :=
+  0 < k ∧ m.a * m.a + m.b * m.b = k * k ∧ ((m.c = -m.b ∧ m.d = m.a) ∨ (m.c = m.b ∧ m.d = -m.a))
+
+/-- a block reference of the quarter-turn class: rotated by a multiple of 90°, non-zero scale factors (mirrors allowed) -/
 def InsQuarter (i : Ins) : Prop := AxisUnit i.dir ∧ i.sx ≠ 0 ∧ i.sy ≠ 0
 def EntsQuarter (ents : List Ent) : Prop := ∀ i, Ent.ins i ∈ ents → InsQuarter i
 def DocQuarter (doc : Doc) : Prop := ∀ b ∈ doc.blocks, EntsQuarter b.ents
+
+/-- a block reference of the uniform class: any rotation, `|xscale| = |yscale| ≠ 0` (mirrors allowed) -/
+def InsUniform (i : Ins) : Prop := UnitDir i.dir ∧ i.sx ≠ 0 ∧ (i.sy = i.sx ∨ i.sy = -i.sx)
+def EntsUniform (ents : List Ent) : Prop := ∀ i, Ent.ins i ∈ ents → InsUniform i
+def DocUniform (doc : Doc) : Prop := ∀ b ∈ doc.blocks, EntsUniform b.ents
+
+/-- well-formed references of a layout: unit direction, non-zero scale factors -/
+def InsWF (i : Ins) : Prop := UnitDir i.dir ∧ i.sx ≠ 0 ∧ i.sy ≠ 0
+def EntsWF (ents : List Ent) : Prop := ∀ i, Ent.ins i ∈ ents → InsWF i
 
 end EzdxfVerif.Render
